@@ -1,14 +1,16 @@
 /-
 C18 — Persisted metadata and keys read back exactly as written.
 
-Property theorems over the models in ForML.Model.{Tag,Keys,Manifest}.  Helper lemmas are `private` here or in
-ForML.Lemmas.C18Order.  Nothing is size-bounded: strings, key sets, release segments and local-version
-segments are arbitrary lists.
+Property theorems over the models in ForML.Model.{Tag,Keys,Manifest}.  The work is done in
+ForML.Lemmas.C18Order (comparators, listings), C18GenKey (key text), C18Str / C18Tag (tags),
+C18Py / C18Manifest (manifests), C18Exact (the excluded regions fail everywhere); this file states the obligations.  Nothing is size-bounded: strings, key sets,
+release segments, local-version segments, state lists and module maps are arbitrary lists.
 -/
-import ForML.Model.Tag
-import ForML.Model.Keys
-import ForML.Model.Manifest
 import ForML.Lemmas.C18Order
+import ForML.Lemmas.C18GenKey
+import ForML.Lemmas.C18Tag
+import ForML.Lemmas.C18Manifest
+import ForML.Lemmas.C18Exact
 
 /-! ## keys and listings -/
 namespace ForML.Keys
@@ -99,6 +101,18 @@ example : genKey [32, 43, 49, 95, 48, 32] = .ok 10 ∧ genKey [48] = .error .not
     ∧ genKey [49, 95, 95, 48] = .error .notInteger ∧ genKey [] = .error .notInteger ∧ genKey [49, 46, 48] = .error .notInteger := by
   decide
 
+/-- **a plain digit string is read as its positional value** (leading zeros allowed), and **`Key(str(k)) = k`**: the
+decimal text of every natural `k ≥ 1` is accepted as `k`, `str(0)` is rejected — generation keys are the naturals from one. -/
+theorem C18_genkey_text :
+    (∀ ds : List Nat, ds ≠ [] → (∀ c ∈ ds, isDigit c = true) → parseInt ds = some (Int.ofNat (valOf 0 ds))) ∧
+    (∀ n : Nat, genKey (natStr n) = if 1 ≤ n then .ok n else .error .notNatural) :=
+  ⟨parseInt_digits, genKey_natStr⟩
+
+/-- generation keys compare as natural numbers (a strict total order) and `next` is the successor, above the key -/
+theorem C18_genkey_order : Lawful natCmp ∧ ∀ k : Nat, natCmp k (genNext k) = .lt := by
+  refine ⟨lawful_nat, fun k => ?_⟩
+  simp [natCmp, genNext]
+
 /-- **release keys are strictly totally ordered by their comparison key**: irreflexive, transitive, and exactly one of
 `a < b`, `key a = key b`, `b < a` holds — for releases and local versions of any length. -/
 theorem C18_version_order :
@@ -115,9 +129,6 @@ theorem C18_version_order :
   | eq => exact Or.inr (Or.inl ((h.eq_iff _ _).mp hab))
   | gt => exact Or.inr (Or.inr ((h.gt_iff _ _).mp hab))
 
-private theorem trim_snoc_zero (r : List Nat) : trim (r ++ [0]) = trim r := by
-  simp [trim]
-
 /-- trailing zeros of the release are insignificant (`1.0.0 == 1`) -/
 theorem C18_version_trailing_zero (v : Version) :
     vcmp { v with release := v.release ++ [0] } v = .eq := by
@@ -128,12 +139,12 @@ theorem C18_version_trailing_zero (v : Version) :
   rw [this]
   exact lawful_cmpKey.refl _
 
-private theorem cmpKey_same (e : Nat) (r : List Nat) (s1 s2 : List Int) (l1 l2 : Option (List (Int × List Nat))) :
-    cmpKey (e, r, s1, l1) (e, r, s2, l2) =
-      prodCmp (listCmp intCmp) (optCmp (listCmp (prodCmp intCmp (listCmp natCmp)))) (s1, l1) (s2, l2) := by
-  have h1 : natCmp e e = .eq := lawful_nat.refl e
-  have h2 : listCmp natCmp r r = .eq := (lawful_list lawful_nat).refl r
-  simp [cmpKey, prodCmp, h1, h2]
+/-- **epoch first, then the release segment compared numerically position by position** (`1.9 < 1.10`, `1!0.1 > 99`),
+for releases of any length -/
+theorem C18_version_epoch_release (a b : Version) :
+    (a.epoch < b.epoch → vcmp a b = .lt) ∧
+    (a.epoch = b.epoch → listCmp natCmp (trim a.release) (trim b.release) = .lt → vcmp a b = .lt) :=
+  vcmp_epoch_release a b
 
 /-- **PEP 440 ordering rules** within one release `X` (any epoch, any release segment, any numbers):
 `X.devN < XaN < XbN < XrcN < X < X.postN`, a dev release of a pre-release sorts before it, and a local version
@@ -162,108 +173,15 @@ end ForML.Keys
 /-! ## generation tags -/
 namespace ForML.Tag
 
-def leadingQuotes : List Nat → Bool
-  | [34] => true
-  | 34 :: 34 :: _ => true
-  | _ => false
-
-/-- string ordinals on which the `toml` writer/reader pair is faithful -/
-def safeStr (s : List Nat) : Bool :=
-  s.all (fun c => !isXEsc c) && !hasBX (escape s) && !leadingQuotes s
-
-/-- ordinals that persist: every primitive kind except `Decimal`, strings in the safe region -/
-def safeOrd : Option Ordinal → Bool
-  | some (.str s) => safeStr s
-  | some (.decimal _ _ _) => false
-  | _ => true
-
-private theorem splitBX_noBX (l acc : List Nat) (h : hasBX l = false) : splitBX acc l = [acc.reverse ++ l] := by
-  induction l generalizing acc with
-  | nil => simp [splitBX]
-  | cons a r ih =>
-    cases r with
-    | nil => simp [splitBX]
-    | cons b r' =>
-      simp only [hasBX, Bool.or_eq_false_iff] at h
-      simp only [splitBX, h.1]
-      rw [ih (a :: acc) h.2]
-      simp
-
-private theorem dumpStr_noBX (s : List Nat) (h : hasBX (escape s) = false) :
-    dumpStr s = .ok (34 :: escape s ++ [34]) := by
-  simp [dumpStr, splitBX_noBX _ [] h, xloop]
-
-private theorem unescape_esc (c : Nat) (hx : isXEsc c = false) (rest t : List Nat) (hr : unescape rest = .ok t) :
-    unescape (esc c ++ rest) = .ok (c :: t) := by
-  by_cases h1 : c = 92
-  · subst h1; simp [esc, unescape, escChar, hr]
-  by_cases h2 : c = 34
-  · subst h2; simp [esc, unescape, escChar, hr]
-  by_cases h3 : c = 9
-  · subst h3; simp [esc, unescape, escChar, hr]
-  by_cases h4 : c = 10
-  · subst h4; simp [esc, unescape, escChar, hr]
-  by_cases h5 : c = 13
-  · subst h5; simp [esc, unescape, escChar, hr]
-  simp only [esc, h1, h2, h3, h4, h5, hx, beq_iff_eq, if_false, Bool.false_eq_true, List.cons_append, List.nil_append]
-  unfold unescape
-  simp [h1, hr]
-
-private theorem unescape_escape (s : List Nat) (hx : ∀ c ∈ s, isXEsc c = false) (tail t : List Nat)
-    (hr : unescape tail = .ok t) : unescape (escape s ++ tail) = .ok (s ++ t) := by
-  induction s with
-  | nil => simpa [escape] using hr
-  | cons c r ih =>
-    have hc := hx c (by simp)
-    have hr' := ih (fun d hd => hx d (by simp [hd]))
-    simp only [escape, List.append_assoc]
-    simpa using unescape_esc c hc _ _ hr'
-
-private theorem finish_quoted (s : List Nat) (hq : leadingQuotes s = false) : finish (34 :: (s ++ [34])) = s := by
-  cases s with
-  | nil => simp [finish, looksTriple]
-  | cons c r =>
-    cases r with
-    | nil =>
-      have hc : (c == 34) = false := by
-        cases h : c == 34
-        · rfl
-        · have : c = 34 := by simpa using h
-          subst this; simp [leadingQuotes] at hq
-      show finish [34, c, 34] = [c]
-      unfold finish looksTriple
-      simp [hc]
-    | cons d r' =>
-      have hcd : (c == 34 && c == d) = false := by
-        cases h : (c == 34 && c == d)
-        · rfl
-        · simp at h; obtain ⟨e1, e2⟩ := h; subst e1; subst e2; simp [leadingQuotes] at hq
-      show finish (34 :: c :: d :: (r' ++ [34])) = c :: d :: r'
-      unfold finish looksTriple
-      simp only [hcd]
-      simp
-      exact List.dropLast_concat (l₁ := d :: r') (b := 34)
-
-/-- **string ordinals round-trip through the TOML basic-string writer and reader** on the safe region: no character
-that `repr` writes as `\xNN`, no `\x` in the escaped text (i.e. no backslash directly followed by `x`), and not `"` /
-not starting with `""`.  Arbitrary length, any other characters (quotes, backslashes, tabs, newlines, `#`, `=` …). -/
+/-- **string ordinals round-trip through the TOML basic-string writer and reader** on the safe region (`safeStr`): no
+character that `repr` writes as `\xNN`, no backslash directly followed by `x`, and not `"` / not starting with `""`.
+Arbitrary length, any other characters (quotes, backslashes, tabs, newlines, `#`, `=`, non-ASCII …). -/
 theorem C18_str_roundtrip (s : List Nat) (h : safeStr s = true) :
-    ∃ lit, dumpStr s = .ok lit ∧ loadStr lit = .ok s := by
-  simp only [safeStr, Bool.and_eq_true, Bool.not_eq_true', List.all_eq_true] at h
-  obtain ⟨⟨hx, hb⟩, hq⟩ := h
-  refine ⟨_, dumpStr_noBX s hb, ?_⟩
-  have hu : unescape (34 :: (escape s ++ [34])) = .ok (34 :: (s ++ [34])) := by
-    have := unescape_escape s (fun c hc => by simpa using hx c hc) [34] [34] (by simp [unescape])
-    simp [unescape, this]
-  have hf := finish_quoted s (by simpa using hq)
-  simp only [loadStr, List.cons_append] at hu ⊢
-  simp only [hu]
-  rw [← List.cons_append] at hf ⊢
-  simp only [List.cons_append] at hf
-  rw [hf]
+    ∃ lit, dumpStr s = .ok lit ∧ loadStr lit = .ok s :=
+  ⟨_, (str_roundtrip s h).1, (str_roundtrip s h).2⟩
 
-/-- non-vacuity: a string with quotes, backslashes, apostrophe, tab, newline, `#`, `=`, a non-ASCII letter; it is safe and
-its literal is what the writer emits -/
+/-- non-vacuity: a string with quotes, backslashes, apostrophe, tab, newline, `#`, `=`, a non-ASCII letter and `\u`; it is
+safe and its literal is what the writer emits -/
 example : safeStr [97, 34, 92, 39, 9, 10, 35, 61, 233, 92, 117] = true ∧
     dumpStr [97, 34, 92] = .ok [34, 97, 92, 34, 92, 92, 34] := by decide
 
@@ -271,48 +189,22 @@ example : safeStr [97, 34, 92, 39, 9, 10, 35, 61, 233, 92, 117] = true ∧
 def C18_tag_roundtrip_full : Prop := ∀ t : Tag, ∃ d, dumps t = .ok d ∧ loads d = .ok t
 
 /-- **tags round-trip** for all timestamps (present or absent, both modes — the repaired `loads`), scores, state lists
-and every ordinal except `Decimal` and strings outside the safe region. -/
+and every ordinal except `Decimal` (finding F4) and strings outside the safe region (findings F1, F2). -/
 theorem C18_tag_roundtrip_partial (t : Tag) (h : safeOrd t.ordinal = true) :
-    ∃ d, dumps t = .ok d ∧ loads d = .ok t := by
-  obtain ⟨trainTs, ordinal, tuneTs, score, states⟩ := t
-  cases ordinal with
-  | none =>
-    cases trainTs <;> cases tuneTs <;> cases score <;>
-      simp [dumps, loads, sect, lookup, loadTs, loadScore] <;> (rename_i n; cases n <;> simp [dumpNum, loadScore])
-  | some o =>
-    cases o with
-    | str s =>
-      obtain ⟨lit, hd, hl⟩ := C18_str_roundtrip s (by simpa [safeOrd] using h)
-      cases trainTs <;> cases tuneTs <;> cases score <;>
-        simp [dumps, dumpOrdinal, hd, loads, sect, lookup, loadTs, loadScore, loadOrdinal, hl] <;>
-        (rename_i n; cases n <;> simp [dumpNum, loadScore])
-    | decimal a b c => simp [safeOrd] at h
-    | int i =>
-      cases trainTs <;> cases tuneTs <;> cases score <;>
-        simp [dumps, dumpOrdinal, loads, sect, lookup, loadTs, loadScore, loadOrdinal] <;>
-        (rename_i n; cases n <;> simp [dumpNum, loadScore])
-    | float i =>
-      cases trainTs <;> cases tuneTs <;> cases score <;>
-        simp [dumps, dumpOrdinal, loads, sect, lookup, loadTs, loadScore, loadOrdinal] <;>
-        (rename_i n; cases n <;> simp [dumpNum, loadScore])
-    | bool i =>
-      cases trainTs <;> cases tuneTs <;> cases score <;>
-        simp [dumps, dumpOrdinal, loads, sect, lookup, loadTs, loadScore, loadOrdinal] <;>
-        (rename_i n; cases n <;> simp [dumpNum, loadScore])
-    | date y m d =>
-      cases trainTs <;> cases tuneTs <;> cases score <;>
-        simp [dumps, dumpOrdinal, loads, sect, lookup, loadTs, loadScore, loadOrdinal] <;>
-        (rename_i n; cases n <;> simp [dumpNum, loadScore])
-    | datetime ts =>
-      cases trainTs <;> cases tuneTs <;> cases score <;>
-        simp [dumps, dumpOrdinal, loads, sect, lookup, loadTs, loadScore, loadOrdinal] <;>
-        (rename_i n; cases n <;> simp [dumpNum, loadScore])
+    ∃ d, dumps t = .ok d ∧ loads d = .ok t :=
+  tag_roundtrip t h
+
+/-- **the rest of the tag never depends on the ordinal's kind**: whenever the ordinal itself is written and read back,
+so is the whole tag (timestamps present or absent, score, any number of states). -/
+theorem C18_tag_roundtrip_of_ordinal (t : Tag) (ov : Option TVal) (hd : dumpOrd? t.ordinal = .ok ov)
+    (hl : loadOrd? ov = .ok t.ordinal) : ∃ d, dumps t = .ok d ∧ loads d = .ok t :=
+  tag_roundtrip_of_ordinal t ov hd hl
 
 /-- **timestamps present or absent** (the repaired D19): a tag without ordinal reads back equal whatever combination of
 training / tuning timestamps, score and states it has — in particular the empty tag `Tag()`. -/
 theorem C18_tag_timestamps_roundtrip (trainTs tuneTs : Option Ts) (score : Option Num) (states : List Nat) :
     ∃ d, dumps ⟨trainTs, none, tuneTs, score, states⟩ = .ok d ∧ loads d = .ok ⟨trainTs, none, tuneTs, score, states⟩ :=
-  C18_tag_roundtrip_partial _ rfl
+  tag_roundtrip _ rfl
 
 def ts0 : Ts := ⟨2020, 1, 2, 3, 4, 5, 0, none⟩
 
@@ -320,12 +212,19 @@ def ts0 : Ts := ⟨2020, 1, 2, 3, 4, 5, 0, none⟩
 example : safeOrd (Tag.mk (some ts0) (some (.str [97, 34, 92, 10])) (some ts0) (some (.float 5)) [1, 2, 3]).ordinal = true := by
   decide
 
-/-- the code before the repair: `Tag()` is written but `loads` raises `KeyError('timestamp')` -/
+/-- the code before the repair (C18-X1): `Tag()` is written but `loads` raises `KeyError('timestamp')` -/
 theorem C18_tag_unrepaired_counterexample :
-    ∃ d, dumps ⟨none, none, none, none, []⟩ = .ok d ∧ loadsStrict d = .error (.keyError "timestamp") := by
-  exact ⟨_, rfl, by decide⟩
+    ∃ d, dumps ⟨none, none, none, none, []⟩ = .ok d ∧ loadsStrict d = .error (.keyError .timestamp) :=
+  ⟨_, rfl, by decide⟩
 
-/-- `'a\x01b'` is written as `"ax01b"` and comes back as `'ax01b'` (known finding C18-F1) -/
+/-- … and that is exactly the difference: the unrepaired reader fails on every written tag without a training
+timestamp and agrees with the repaired one on all others -/
+theorem C18_tag_unrepaired_exact (t : Tag) (d : Doc) (hd : dumps t = .ok d) :
+    loadsStrict d = if t.trainTs.isSome then loads d else .error (.keyError .timestamp) :=
+  loadsStrict_eq t d hd
+
+/-- `'a\x01b'` is written as `"ax01b"` and comes back as `'ax01b'`; `'\x85'` raises in the writer; `'a\\xb'` is written
+with a reserved escape the reader rejects (known finding C18-F1) -/
 theorem C18_tag_string_x_counterexample :
     dumpStr [97, 1, 98] = .ok [34, 97, 120, 48, 49, 98, 34] ∧ loadStr [34, 97, 120, 48, 49, 98, 34] = .ok [97, 120, 48, 49, 98]
     ∧ dumpStr [133] = .error .indexError
@@ -338,11 +237,29 @@ theorem C18_tag_string_quotes_counterexample :
     dumpStr [34, 34, 97] = .ok [34, 92, 34, 92, 34, 97, 34] ∧ loadStr [34, 92, 34, 92, 34, 97, 34] = .ok [] := by
   decide
 
+/-- **finding F2 is the whole region, not a sample**: every string that is `"` or starts with `""` (outside the `\x`
+region) is written, read back without an error, and comes back different — `leadingQuotes` excludes nothing that works -/
+theorem C18_tag_string_quotes_exact (s : List Nat) (hx : noXEsc s = true) (hb : hasBX s = false)
+    (hq : leadingQuotes s = true) : ∃ lit t, dumpStr s = .ok lit ∧ loadStr lit = .ok t ∧ t ≠ s :=
+  str_leadingQuotes_fails s hx hb hq
+
+/-- each of the three conditions of `safeStr` is needed: the witnesses of F1 / F2 violate exactly one of them -/
+example : (noXEsc [97, 1, 98] = false ∧ hasBX [97, 1, 98] = false ∧ leadingQuotes [97, 1, 98] = false) ∧
+    (noXEsc [97, 92, 120, 98] = true ∧ hasBX [97, 92, 120, 98] = true ∧ leadingQuotes [97, 92, 120, 98] = false) ∧
+    (noXEsc [34] = true ∧ hasBX [34] = false ∧ leadingQuotes [34] = true) := by decide
+
 /-- a `Decimal` ordinal comes back as a float (known finding C18-F4) -/
 theorem C18_tag_decimal_counterexample :
     ∃ d, dumps ⟨some ts0, some (.decimal [49, 46, 53] 1 4609434218613702656), none, none, []⟩ = .ok d ∧
-      loads d = .ok ⟨some ts0, some (.float 4609434218613702656), none, none, []⟩ := by
-  exact ⟨_, rfl, by decide⟩
+      loads d = .ok ⟨some ts0, some (.float 4609434218613702656), none, none, []⟩ :=
+  ⟨_, rfl, by decide⟩
+
+/-- **finding F4 is the whole region**: whatever the rest of the tag, a `Decimal` ordinal reads back as the float or
+the int of its text and everything else reads back intact -/
+theorem C18_tag_decimal_exact (trainTs tuneTs : Option Ts) (score : Option Num) (states text : List Nat) (i : Int) (f : Nat) :
+    ∃ d o', dumps ⟨trainTs, some (.decimal text i f), tuneTs, score, states⟩ = .ok d ∧
+      loads d = .ok ⟨trainTs, some o', tuneTs, score, states⟩ ∧ (o' = .float f ∨ o' = .int i) :=
+  tag_decimal_fails trainTs tuneTs score states text i f
 
 theorem C18_tag_roundtrip_counterexample : ¬ C18_tag_roundtrip_full := by
   intro h
@@ -358,145 +275,55 @@ end ForML.Tag
 /-! ## manifests -/
 namespace ForML.Manifest
 
-/-- text pasted raw between double quotes survives iff nothing in it is special to a Python literal -/
-def clean (s : List Nat) : Bool := s.all (fun c => c != 34 && c != 92 && c != 10 && c != 13)
-
-/-- printable ASCII -/
-def ascii (s : List Nat) : Bool := s.all (fun c => 32 ≤ c && c ≤ 126)
-
-private theorem pyStr_clean (s rest : List Nat) (h : clean s = true) : pyStr (s ++ 34 :: rest) = .ok (s, rest) := by
-  induction s with
-  | nil => unfold pyStr; simp
-  | cons c r ih =>
-    simp only [clean, List.all_cons, Bool.and_eq_true, bne_iff_ne, ne_eq] at h
-    obtain ⟨⟨⟨⟨h1, h2⟩, h3⟩, h4⟩, hr⟩ := h
-    have := ih (by simpa [clean] using hr)
-    simp only [List.cons_append]
-    unfold pyStr
-    simp [h1, h2, h3, h4, this]
-
-private theorem pyStr_jstr (s rest : List Nat) (h : ascii s = true) : pyStr (jstr s ++ 34 :: rest) = .ok (s, rest) := by
-  induction s with
-  | nil => simp only [jstr, List.nil_append]; unfold pyStr; simp
-  | cons c r ih =>
-    simp only [ascii, List.all_cons, Bool.and_eq_true, decide_eq_true_eq] at h
-    obtain ⟨⟨hlo, hhi⟩, hr⟩ := h
-    have ih' := ih (by simpa [ascii] using hr)
-    by_cases h1 : c = 34
-    · subst h1; simp [jstr, jesc, pyStr, pyEsc, ih']
-    by_cases h2 : c = 92
-    · subst h2; simp [jstr, jesc, pyStr, pyEsc, ih']
-    have h10 : c ≠ 10 := by omega
-    have h13 : c ≠ 13 := by omega
-    have h9 : c ≠ 9 := by omega
-    have h8 : c ≠ 8 := by omega
-    have h12 : c ≠ 12 := by omega
-    simp only [jstr, jesc, h1, h2, h10, h13, h9, h8, h12, hlo, hhi, beq_iff_eq, if_false, Bool.false_eq_true, decide_true,
-      Bool.and_self, if_true, List.cons_append, List.nil_append]
-    unfold pyStr
-    simp [h1, h2, h10, h13, ih']
-
 /-- **string literals**: a name / version / package over a clean alphabet pasted between double quotes, and a module
-path of printable ASCII written by `json.dumps` (which escapes `"` and `\`), are read back unchanged by Python. -/
+path of BMP characters written by `json.dumps` (which escapes `"`, `\`, control characters and everything non-ASCII
+as `\uXXXX`), are read back unchanged by Python. -/
 theorem C18_manifest_literals (s rest : List Nat) :
     (clean s = true → pyStr (s ++ 34 :: rest) = .ok (s, rest)) ∧
-    (ascii s = true → pyStr (jstr s ++ 34 :: rest) = .ok (s, rest)) :=
+    (bmp s = true → pyStr (jstr s ++ 34 :: rest) = .ok (s, rest)) :=
   ⟨pyStr_clean s rest, pyStr_jstr s rest⟩
 
-def asciiPairs (m : List (List Nat × List Nat)) : Bool := m.all (fun kv => ascii kv.1 && ascii kv.2)
-
-private theorem jitems_cons (k v : List Nat) (r : List (List Nat × List Nat)) :
-    jitems ((k, v) :: r) = 34 :: jstr k ++ [34, 58, 32, 34] ++ jstr v ++
-      (match r with | [] => [34, 125] | _ :: _ => [34, 44, 32] ++ jitems r) := by
-  cases r <;> simp [jitems]
-
-private theorem pyItems_jitems (m : List (List Nat × List Nat)) (hne : m ≠ []) (h : asciiPairs m = true) (f : Nat)
-    (hf : m.length ≤ f) : pyItems f (jitems m) = .ok m := by
-  induction m generalizing f with
-  | nil => exact absurd rfl hne
-  | cons kv r ih =>
-    obtain ⟨k, v⟩ := kv
-    simp only [asciiPairs, List.all_cons, Bool.and_eq_true] at h
-    obtain ⟨⟨hk, hv⟩, hr⟩ := h
-    cases f with
-    | zero => simp at hf
-    | succ f =>
-      rw [jitems_cons]
-      cases r with
-      | nil =>
-        simp only [pyItems, expect, List.cons_append, List.append_assoc, beq_self_eq_true, ite_true]
-        rw [pyStr_jstr k _ hk]
-        simp only [expect, List.cons_append, List.nil_append, beq_self_eq_true, ite_true]
-        rw [pyStr_jstr v _ hv]
-      | cons kv' r' =>
-        have ih' := ih (by simp) (by simpa [asciiPairs] using hr) f (by simpa using hf)
-        simp only [pyItems, expect, List.cons_append, List.append_assoc, beq_self_eq_true, ite_true]
-        rw [pyStr_jstr k _ hk]
-        simp only [expect, List.cons_append, List.nil_append, beq_self_eq_true, ite_true]
-        rw [pyStr_jstr v _ hv]
-        simp only [ih']
-
-private theorem jitems_length (m : List (List Nat × List Nat)) : m.length ≤ (jitems m).length := by
-  induction m with
-  | nil => simp [jitems]
-  | cons kv r ih =>
-    obtain ⟨k, v⟩ := kv
-    rw [jitems_cons]
-    cases r with
-    | nil => simp
-    | cons a b => simp at ih ⊢; omega
-
-private theorem pyDict_jdict (m : List (List Nat × List Nat)) (h : asciiPairs m = true) : pyDict (jdict m) = .ok m := by
-  cases m with
-  | nil => simp [jdict, jitems, pyDict]
-  | cons kv r =>
-    have hne : jitems (kv :: r) ≠ [125] := by
-      obtain ⟨k, v⟩ := kv; rw [jitems_cons]; simp
-    unfold jdict pyDict
-    split
-    · rename_i heq; simp at heq; exact absurd heq hne
-    · rename_i t heq _; simp at heq; subst heq
-      exact pyItems_jitems _ (by simp) h _ (jitems_length _)
-    · rename_i hx _; exact absurd rfl (hx _)
-
-/-- manifests over the legal alphabets -/
-def legal (m : Manifest) : Bool := clean m.name && clean m.version && clean m.package && asciiPairs m.modules
+/-- the module map alone: any number of entries, insertion order kept -/
+theorem C18_manifest_modules (m : List (List Nat × List Nat)) (h : bmpPairs m = true) : pyDict (jdict m) = .ok m :=
+  pyDict_jdict m h
 
 /-- the statement for arbitrary module-map strings (names, versions, packages clean) -/
 def C18_manifest_roundtrip_full : Prop :=
   ∀ m : Manifest, clean m.name = true → clean m.version = true → clean m.package = true → read (render m) = .ok m
 
 /-- **manifests round-trip**: `read (write m) = m` for names / versions / packages without `"`, `\`, line breaks and
-module maps (any number of entries, insertion order kept) whose keys and values are printable ASCII. -/
-theorem C18_manifest_roundtrip_partial (m : Manifest) (h : legal m = true) : read (render m) = .ok m := by
-  obtain ⟨name, version, package, modules⟩ := m
-  simp only [legal, Bool.and_eq_true] at h
-  obtain ⟨⟨⟨hn, hv⟩, hp⟩, hm⟩ := h
-  have e1 : ∀ t, expect sNAME (sNAME ++ t) = .ok t := by intro t; simp [sNAME, expect]
-  have e2 : ∀ t, expect (sVERSION.drop 1) (sVERSION.drop 1 ++ t) = .ok t := by intro t; simp [sVERSION, expect]
-  have e3 : ∀ t, expect (sPACKAGE.drop 1) (sPACKAGE.drop 1 ++ t) = .ok t := by intro t; simp [sPACKAGE, expect]
-  have e4 : ∀ t, expect (sMODULES.drop 1) (sMODULES.drop 1 ++ t) = .ok t := by intro t; simp [sMODULES, expect]
-  have s2 : sVERSION = 34 :: sVERSION.drop 1 := by decide
-  have s3 : sPACKAGE = 34 :: sPACKAGE.drop 1 := by decide
-  have s4 : sMODULES = 34 :: sMODULES.drop 1 := by decide
-  unfold read render
-  simp only [List.append_assoc, e1]
-  rw [s2, List.cons_append, pyStr_clean name _ hn]
-  simp only [List.append_assoc, e2]
-  rw [s3, List.cons_append, pyStr_clean version _ hv]
-  simp only [List.append_assoc, e3]
-  rw [s4, List.cons_append, pyStr_clean package _ hp]
-  simp only [e4, pyDict_jdict modules hm]
+module maps (any number of entries, insertion order kept) whose keys and values are BMP text — quotes, backslashes,
+control characters and non-ASCII letters included; only characters beyond U+FFFF are excluded (finding F5). -/
+theorem C18_manifest_roundtrip_partial (m : Manifest) (h : legal m = true) : read (render m) = .ok m :=
+  read_render m h
 
-/-- non-vacuity: a manifest with a three-entry module map containing a quote and a backslash -/
+/-- the legal alphabets of names (PEP 503), versions (PEP 440 normal form) and dotted packages are clean -/
+theorem C18_manifest_legal_alphabet (m : Manifest) (hn : m.name.all nameChar = true) (hv : m.version.all nameChar = true)
+    (hp : m.package.all nameChar = true) (hm : bmpPairs m.modules = true) : read (render m) = .ok m := by
+  apply read_render
+  simp only [legal, clean_of_nameChars _ hn, clean_of_nameChars _ hv, clean_of_nameChars _ hp, hm, Bool.and_self]
+
+/-- non-vacuity: a manifest with a three-entry module map containing a quote, a backslash, a newline and `é` -/
 example : legal ⟨[102, 111, 111], [49, 46, 48, 114, 99, 49], [97, 46, 98],
-    [([115], [120, 46, 121]), ([112], [97, 34, 98]), ([101], [92])]⟩ = true := by decide
+    [([115], [120, 46, 121]), ([112], [97, 34, 98, 10]), ([101], [92, 233])]⟩ = true := by decide
 
 /-- a module path with a character outside the BMP reads back as two surrogates (known finding C18-F5) -/
+theorem C18_manifest_nonbmp_witness :
+    (read (render ⟨[112], [49], [97], [([115], [119857])]⟩)).map (·.modules) = .ok [([115], [55349, 56369])] := by
+  decide
+
+/-- **finding F5 is the whole region**: every Unicode scalar value beyond the BMP, written by `json.dumps` as a surrogate
+pair, is read back by Python as two code units — `bmp` excludes nothing that works -/
+theorem C18_manifest_nonbmp_exact (c : Nat) (h : astral c = true) (rest : List Nat) :
+    ∃ t, pyStr (jstr [c] ++ 34 :: rest) = .ok (t, rest) ∧ t ≠ [c] :=
+  astral_value_fails c h rest
+
 theorem C18_manifest_nonbmp_counterexample : ¬ C18_manifest_roundtrip_full := by
   intro h
-  have := h ⟨[112], [49], [97], [([115], [119857])]⟩ (by decide) (by decide) (by decide)
-  revert this
+  have h1 := h ⟨[112], [49], [97], [([115], [119857])]⟩ (by decide) (by decide) (by decide)
+  have h2 := C18_manifest_nonbmp_witness
+  rw [h1] at h2
+  revert h2
   decide
 
 /-- outside the legal alphabet the failure is characterised: a name with `\\` silently changes, one with `"` breaks the
